@@ -9,9 +9,11 @@
 package forwarder
 
 import (
+	"crypto/x509"
 	"net/http"
 
 	"github.com/saucelabs/forwarder/internal/martian"
+	"github.com/saucelabs/forwarder/internal/martian/h2"
 )
 
 // VerifObserveTrace is a verification hook (build tag verif, add-only).
@@ -51,4 +53,14 @@ func (hp *HTTPProxy) VerifErrorResponse(req *http.Request, err error) *http.Resp
 // It builds a martian.ErrorStatus (the type lives in an internal package).
 func VerifErrorStatus(err error, status int) error {
 	return martian.ErrorStatus{Err: err, Status: status}
+}
+
+// VerifEnableMITMH2 is a verification hook (build tag verif, add-only).
+// forwarder does not configure HTTP/2 for intercepted connections; this enables martian's h2 relay for every
+// host (origin certificates are verified against roots) so that the h2 hand-off of handleMITM can be driven.
+func (hp *HTTPProxy) VerifEnableMITMH2(roots *x509.CertPool) {
+	hp.proxy.MITMConfig.SetH2Config(&h2.Config{
+		AllowedHostsFilter: func(string) bool { return true },
+		RootCAs:            roots,
+	})
 }
